@@ -16,8 +16,8 @@ typedef struct { int id; int key; } elem_t;
 static elem_t E[MAXE];
 static int n_elems;
 
-enum kind { Q, S, L, LC /* list with comparator */ };
-static const char *kname[] = { "queue", "stack", "list", "list+cmp" };
+enum kind { Q, S, L, LC /* list with comparator */, LN /* list with a comparator that never reports equality: pointer identity must still work */ };
+static const char *kname[] = { "queue", "stack", "list", "list+cmp", "list+nevercmp" };
 
 typedef struct {
     enum kind k;
@@ -34,6 +34,7 @@ static void dtor_cb(void *p) {
     if (ndlog < MAXE) dlog[ndlog++] = e->id;
 }
 static int cmp_cb(void *a, void *b) { return ((elem_t *)a)->key - ((elem_t *)b)->key; }
+static int never_cb(void *a, void *b) { (void)a; (void)b; return 1; }
 
 static char prog_txt[8192]; static int prog_len;
 static unsigned long long cur_seed;
@@ -333,7 +334,7 @@ static void c_new(cont_t *c, enum kind k, bool with_dtor) {
     memset(c, 0, sizeof(*c));
     c->k = k; c->with_dtor = with_dtor;
     m_queue_dtor d = with_dtor ? dtor_cb : NULL;
-    if (k == Q) c->q = m_queue_new(d); else if (k == S) c->s = m_stack_new(d); else c->l = m_list_new(k == LC ? cmp_cb : NULL, d);
+    if (k == Q) c->q = m_queue_new(d); else if (k == S) c->s = m_stack_new(d); else c->l = m_list_new(k == LC ? cmp_cb : k == LN ? never_cb : NULL, d);
     if (!c->q && !c->s && !c->l) vf_fail("C12/new-null", "container constructor returned NULL");
     n_elems = 0; ndlog = 0; prog_len = 0; prog_txt[0] = 0;
 }
@@ -412,7 +413,7 @@ static void exhaustive(enum kind k, bool with_dtor, int maxlen) {
 
 static void random_run(uint64_t seed, int maxops, bool sample) {
     vf_rng r = { seed };
-    enum kind k = vf_below(&r, 4);
+    enum kind k = vf_below(&r, 5);
     bool with_dtor = vf_chance(&r, 2, 3);
     cont_t c;
     uint64_t live0 = vf_live();
@@ -464,7 +465,7 @@ int main(int argc, char **argv) {
         /* argv[5]: which (kind,dtor) slice of the exhaustive space this process enumerates: 0..7, or -1 = all */
         int slice = argc > 5 ? atoi(argv[5]) : -1;
         first_letter = argc > 6 ? atoi(argv[6]) : -1;
-        for (int k = 0; k < 4; k++) for (int d = 0; d < 2; d++) if (slice < 0 || slice == k * 2 + d) exhaustive(k, d, exh);
+        for (int k = 0; k < 5; k++) for (int d = 0; d < 2; d++) if (slice < 0 || slice == k * 2 + d) exhaustive(k, d, exh);
     }
     vf_stat("exhaustive_programs", n_exh);
     for (int i = 0; i < nrand; i++) random_run(seed * 1000003ULL + i, maxops, i < 2);
